@@ -60,7 +60,7 @@ func c17Gen(t *rapid.T) c17Case {
 		r.N = rapid.SampledFrom([]int{1, 1, 1, 2, 3, 5, 12, 29, 30, 31, 32, 33, 40, 64}).Draw(t, "n")
 		c.Runs = append(c.Runs, r)
 	}
-	c.End = rapid.SampledFrom([]string{"done", "done", "done", "done", "cut", "badjson", "errline", "reset"}).Draw(t, "end")
+	c.End = rapid.SampledFrom([]string{"done", "done", "done", "done", "cut", "badjson", "errline", "reset", "done_reset", "done_extra"}).Draw(t, "end")
 	c.Reason = rapid.SampledFrom([]string{"stop", "length"}).Draw(t, "reason")
 	c.Eval = rapid.IntRange(0, 500).Draw(t, "eval")
 	c.Prompt = rapid.IntRange(0, 500).Draw(t, "prompt")
@@ -130,12 +130,21 @@ func (rt c17Runner) RoundTrip(req *http.Request) (*http.Response, error) {
 		case "done":
 			line(CompletionResponse{Done: true, DoneReason: c17Reason(rt.c.Reason), EvalCount: rt.c.Eval, PromptEvalCount: rt.c.Prompt,
 				EvalDuration: time.Duration(rt.c.Eval) * time.Millisecond, PromptEvalDuration: time.Duration(rt.c.Prompt) * time.Millisecond})
+		case "done_reset", "done_extra":
+			// the final line has arrived; what happens on the connection afterwards (the runner dies before the chunked
+			// body is terminated, or writes more) must not change the outcome: the request is complete
+			line(CompletionResponse{Done: true, DoneReason: c17Reason(rt.c.Reason), EvalCount: rt.c.Eval, PromptEvalCount: rt.c.Prompt,
+				EvalDuration: time.Duration(rt.c.Eval) * time.Millisecond, PromptEvalDuration: time.Duration(rt.c.Prompt) * time.Millisecond})
+			if rt.c.End == "done_extra" {
+				line(CompletionResponse{Content: " more"})
+				line(CompletionResponse{Done: true, DoneReason: DoneReasonLength, EvalCount: rt.c.Eval + 7, PromptEvalCount: rt.c.Prompt})
+			}
 		case "badjson":
 			buf.WriteString("{\"content\": \n")
 		case "errline":
 			buf.WriteString("{\"error\":\"scripted failure\"}\n")
 		}
-		return resp(200, &c17Body{r: bytes.NewReader(buf.Bytes()), reset: rt.c.End == "reset"}), nil
+		return resp(200, &c17Body{r: bytes.NewReader(buf.Bytes()), reset: rt.c.End == "reset" || rt.c.End == "done_reset"}), nil
 	}
 	return resp(404, io.NopCloser(strings.NewReader("not found"))), nil
 }
@@ -162,7 +171,7 @@ func c17LongestRepeat(c c17Case) int {
 			lines = append(lines, strings.TrimSpace(c17Pieces[r.Piece%len(c17Pieces)]))
 		}
 	}
-	if c.End == "done" || c.End == "errline" {
+	if c.End == "done" || c.End == "errline" || c.End == "done_reset" || c.End == "done_extra" {
 		lines = append(lines, "")
 	}
 	best, cur, last := 0, 0, ""
@@ -251,7 +260,7 @@ func c17Run(c c17Case, known func(string) bool, excluded func(string)) (info c17
 	if cerr == nil {
 		cls["completed_with_done"] = true
 		d := got[len(got)-1]
-		if c.End != "done" || c.Status != 0 {
+		if !strings.HasPrefix(c.End, "done") || c.Status != 0 {
 			return info, fmt.Errorf("a Done response was delivered although the runner never sent one (ending %q, status %d)", c.End, c.Status)
 		}
 		if text.String() != sent.String() {
@@ -262,8 +271,8 @@ func c17Run(c c17Case, known func(string) bool, excluded func(string)) (info c17
 		}
 	} else {
 		cls["ended_with_error"] = true
-		if c.End == "done" && c.Status == 0 && rep <= 30 {
-			return info, fmt.Errorf("the runner delivered a complete stream but Completion returned %q", cerr)
+		if strings.HasPrefix(c.End, "done") && c.Status == 0 && rep <= 30 {
+			return info, fmt.Errorf("the runner delivered a complete stream (ending %q) but Completion returned %q", c.End, cerr)
 		}
 	}
 	return info, nil
